@@ -249,13 +249,13 @@ def random_codec_vectors(rng, n):
                  "v": [int(c) for c in str(rng.choice([0, 1, rng.randrange(1 << 16), rng.randrange(1 << 64), (1 << 64) - 1]))]}
                 for _ in range(rng.choice([0, 0, 1, 2, 4]))]
         if t in ("rrq", "wrq"):
-            p = {"t": t, "fn": list(random_utf8(rng, rng.choice([0, 1, 8, 40, 500]))), "mode": list(rng.choice([b"octet", b"netascii", b""])), "opts": opts}
+            p = {"t": t, "fn": list(random_utf8(rng, rng.choice([0, 1, 8, 40, 500, 505, 512, 2000]))), "mode": list(rng.choice([b"octet", b"netascii", b""])), "opts": opts}
         elif t == "data":
             p = {"t": t, "n": rng.randrange(65536), "d": [rng.randrange(256) for _ in range(rng.choice([0, 1, 7, 512, 1468, 9000]))]}
         elif t == "ack":
             p = {"t": t, "n": rng.randrange(65536)}
         elif t == "error":
-            p = {"t": t, "code": rng.randrange(8), "msg": list(random_utf8(rng, rng.choice([0, 5, 60])))}
+            p = {"t": t, "code": rng.randrange(8), "msg": list(random_utf8(rng, rng.choice([0, 5, 60, 60, 507, 511, 512, 513, 700, 4000])))}
         else:
             p = {"t": t, "opts": opts}
         out.append({"p": p})
@@ -1457,8 +1457,9 @@ def c14(res):
                 wrapc = X.make_file(65540, 8, 5)
                 open(os.path.join(sb.send, "wrap.bin"), "wb").write(wrapc)
                 for direction in (("download",) if q else ("download", "upload")):
-                    se, ce, fin = IO.one_run(srv, sb, work, direction, "wrap.bin", wrapc, 8, 64 if q else 4, 1, "wrap-%s" % direction,
-                                             run_timeout=120 if q else 600)
+                    # (a small window makes 65 540 blocks through the recording proxy take longer than the run may last)
+                    se, ce, fin = IO.one_run(srv, sb, work, direction, "wrap.bin", wrapc, 8, 64 if (q or not single) else 100, 1, "wrap-%s" % direction,
+                                             run_timeout=120 if q else 300)
                     xfer_events += se + ce
                     finals.append(fin)
             # path conventions and refusals
